@@ -432,4 +432,4 @@ impl AnnotationDelta {
 
 #[cfg(kani)]
 #[path = "/verif/kani/comparison.rs"]
-mod verif_kani;
+pub(crate) mod verif_kani;
